@@ -480,9 +480,17 @@ class Keys(object):
             c = callee(e)
             args = call_args(e)
             nm = c[1].get('name') if c and c[0] == 'fn' else '?'
+            if nm in ('operator[]', 'operator*') and getattr(self, 'ptrenv', None):
+                nf = self._elem_nf(e)          # element reached through an iterator / pointer local
+                if nf is not None:
+                    return nf
             if nm == 'operator[]' and len(args) == 2:
                 return '%s[%s]' % (self.key(args[0]), self.key(args[1]))
             if nm == 'operator->' and len(args) == 1:
+                if getattr(self, 'ptrenv', None):
+                    nf = self._elem_nf(args[0], deref=True)
+                    if nf is not None:
+                        return nf
                 return self.key(args[0])       # smart pointer: p->x keyed as p.x
             if nm == 'operator*' and len(args) == 1:
                 return '*(%s)' % self.key(args[0])
